@@ -210,6 +210,29 @@ def conv_falsy():
   return _FW[0]
 
 
+_EARLY = []
+
+
+def converted_before_assignment(a: int, v: int) -> bool:
+  """
+  post: _
+  """
+  if not _EARLY:
+    _EARLY.append(T.make_converted_before_assignment())
+  inner, conv, setter = _EARLY[0]
+  fc = dict(zip(inner.__code__.co_freevars, inner.__closure__))
+  gc_ = dict(zip(conv.__code__.co_freevars, conv.__closure__))
+  if any(fc[k] is not gc_[k] for k in fc if k in gc_):
+    return False
+  r1 = rt.same_obs(rt.obs(inner, (a,)), rt.obs(conv, (a,)))
+  setter(v)
+  try:
+    r2 = rt.same_obs(rt.obs(inner, (a,)), rt.obs(conv, (a,))) and conv(0) == v
+  finally:
+    setter(50)
+  return r1 and r2
+
+
 def shared_global_foreign_module(v: int, a: int, b: int) -> bool:
   """
   post: _
@@ -226,7 +249,7 @@ def shared_global_foreign_module(v: int, a: int, b: int) -> bool:
 
 
 SEMANTIC = ['shared_cell', 'shared_global', 'shared_mutable_default', 'bound_method',
-            'shared_global_foreign_module', 'bound_method_of_falsy_instance']
+            'shared_global_foreign_module', 'bound_method_of_falsy_instance', 'converted_before_assignment']
 
 
 def static_conditions():
